@@ -57,6 +57,14 @@ class Resolver:
     def var_classes(self, f: FuncInfo, name: str) -> List[ClassInfo]:
         """Classes a local name may hold, from annotations and constructor assignments (flow-insensitive)."""
         key = (f.fq(), name)
+        if key in self._local_types:
+            return self._local_types[key].get('v', [])
+        self._local_types[key] = {'v': []}      # recursion guard (x = x.method())
+        out = self._var_classes(f, name)
+        self._local_types[key] = {'v': out}
+        return out
+
+    def _var_classes(self, f: FuncInfo, name: str) -> List[ClassInfo]:
         prog = self.prog
         out: List[ClassInfo] = []
         g: Optional[FuncInfo] = f
@@ -84,6 +92,16 @@ class Resolver:
         return out
 
     def resolve(self, f: FuncInfo, call: ast.Call) -> List[Target]:
+        k = id(call)
+        if not hasattr(self, '_rcache'):
+            self._rcache = {}
+        if k in self._rcache:
+            return self._rcache[k]
+        r = self._resolve(f, call)
+        self._rcache[k] = r
+        return r
+
+    def _resolve(self, f: FuncInfo, call: ast.Call) -> List[Target]:
         prog = self.prog
         fn = call.func
         m = f.module
@@ -160,7 +178,7 @@ class Resolver:
         if attr == 'apply':
             fwd = self.prog.find_method(ci, 'forward')
             if fwd is not None:
-                return [Target(fwd)]
+                return [Target(fwd, bound=True)]     # torch supplies the context object as first argument
         al = self.prog.class_attr_alias(ci, attr)
         if al is not None:
             return [Target(None, external=norm(al))]
